@@ -419,6 +419,7 @@ func (k *H2Collector) Add(dec *h2wire.Decoder, fs []h2wire.Frame) {
 // Req is a request a harness client sends.
 type Req struct {
 	Method, Path, Host string
+	Scheme             string // h2 only; default "https"
 	Lines              [][2]string // extra header lines in order (names as written; lower-cased for h2)
 	Body               []byte
 }
@@ -453,7 +454,11 @@ func (c *Client) SendH2(stream uint32, r Req) {
 	if m == "" {
 		m = "GET"
 	}
-	fs := []h2wire.HF{{Name: ":method", Value: m}, {Name: ":scheme", Value: "https"}, {Name: ":authority", Value: r.Host}, {Name: ":path", Value: r.Path}}
+	sch := r.Scheme
+	if sch == "" {
+		sch = "https"
+	}
+	fs := []h2wire.HF{{Name: ":method", Value: m}, {Name: ":scheme", Value: sch}, {Name: ":authority", Value: r.Host}, {Name: ":path", Value: r.Path}}
 	for _, l := range r.Lines {
 		fs = append(fs, h2wire.HF{Name: asciiLower(l[0]), Value: l[1]})
 	}
